@@ -26,18 +26,18 @@ class Enc:
         self.extra = extra or {}
 
 
-def numpy_encodings(topo, style="array", flags=None, domain=(), numeric=None, order=None):
+def numpy_encodings(topo, style="array", flags=None, domain=(), numeric=None, order=None, builder=None):
     encs = []
-    paths = runs.nsym(topo, style, flags, domain, numeric, order)
+    paths = runs.nsym(topo, style, flags, domain, numeric, order, builder=builder)
     for k, p in enumerate(paths):
         encs.append(Enc(f"numpy[{style}]#{k}", p.outs, p.pc, p.exc, {"shapes": p.shapes, "obligations": p.obligations}))
     return encs
 
 
-def casadi_encoding(topo, symtype, numeric=None, flags=None, more_out=False, order=None):
+def casadi_encoding(topo, symtype, numeric=None, flags=None, more_out=False, order=None, builder=None):
     """compact level 0 function -> Enc keyed like the NumPy side.  extra holds F, declared, info."""
     try:
-        F, built, P, declared = runs.cas_function(topo, symtype, numeric, 0, more_out, flags, order)
+        F, built, P, declared = runs.cas_function(topo, symtype, numeric, 0, more_out, flags, order, builder=builder)
     except Exception as e:  # noqa
         return Enc(f"casadi[{symtype}]", {}, exc=e)
     named, info = sx2smt.translate(F, runs.binder_level0(topo, declared))
@@ -300,6 +300,18 @@ def replay_exec(rec):
             exc = e
     print("exception:", repr(exc))
     return 1 if exc is not None else 0
+
+
+def history_builders():
+    """non-fresh construction histories (shared by C02, C17): name -> builder(topo, P, first_engine)."""
+    from checks import c14
+
+    return {
+        "fresh": None,
+        "reads-interleaved": lambda topo, P, eng: c14.build_variant(topo, P, {"order": c14.default_order(topo), "touch": True}, eng),
+        "decoy-links-replaced": lambda topo, P, eng: c14.build_variant(topo, P, {"decoy": "links"}, eng),
+        "decoy-attachments-replaced": lambda topo, P, eng: c14.build_variant(topo, P, {"decoy": "attach"}, eng),
+    }
 
 
 def casadi_numeric_for(topo):
